@@ -29,6 +29,8 @@ pub enum SessState {
     InFlight,
     QuotaExhausted,
     SlotsFull,
+    /// Receive Maximum 1 and nothing in flight: one unit of send quota, visible in can_publish()
+    LastQuotaUnit,
 }
 
 #[derive(Clone, Copy, Debug, PartialEq, Eq, Hash, Serialize, Deserialize)]
@@ -147,7 +149,7 @@ pub fn cells() -> Vec<Cell> {
                     out.push(Cell::Prop { ctx, prop, state: SessState::Idle, qos: 0, correlate: false });
                     continue;
                 }
-                for state in [SessState::Idle, SessState::InFlight, SessState::QuotaExhausted, SessState::SlotsFull] {
+                for state in [SessState::Idle, SessState::InFlight, SessState::QuotaExhausted, SessState::SlotsFull, SessState::LastQuotaUnit] {
                     if ctx == PCtx::Publish {
                         for qos in 0..3u8 {
                             out.push(Cell::Prop { ctx, prop: prop.clone(), state, qos, correlate: false });
@@ -163,7 +165,7 @@ pub fn cells() -> Vec<Cell> {
             }
         }
     }
-    for state in [SessState::Idle, SessState::InFlight, SessState::QuotaExhausted, SessState::SlotsFull] {
+    for state in [SessState::Idle, SessState::InFlight, SessState::QuotaExhausted, SessState::SlotsFull, SessState::LastQuotaUnit] {
         out.push(Cell::EmptyList { subscribe: true, state });
         out.push(Cell::EmptyList { subscribe: false, state });
     }
@@ -204,6 +206,7 @@ fn prelude(state: SessState) -> (Option<u16>, Vec<Step>) {
             ],
         ),
         SessState::QuotaExhausted => (Some(1), vec![Step::Publish(PubSpec::simple(1, 3, 4, 3))]),
+        SessState::LastQuotaUnit => (Some(1), vec![]),
         SessState::SlotsFull => (
             None,
             (0..8)
@@ -543,7 +546,7 @@ pub fn run(ctx: &Ctx) -> i32 {
         agg,
         Report {
             level: "exploration",
-            rule: "exhaustive enumeration: {publish(QoS 0,1,2), subscribe, unsubscribe, disconnect} x 27 property kinds x boundary values x session state {idle, in-flight incl. an exchange waiting for PUBCOMP, send quota exhausted, all in-flight slots full}, plus will x 27 kinds x values, empty topic lists in every state, requests on a dead handle, and Maximum QoS {absent,0,1,2} x requested QoS x auto-downgrade flag; oracle = MQTT 5 legality table (MUST_ACCEPT / MUST_REJECT / UNSPECIFIED): rejected => documented error, no transport I/O, all observable session state unchanged; accepted => Ok and the property decodes from the wire. Every cell is a distinct case; non-trivial = cells whose outcome the specification fixes (not UNSPECIFIED).".into(),
+            rule: "exhaustive enumeration: {publish(QoS 0,1,2), subscribe, unsubscribe, disconnect} x 27 property kinds x boundary values x session state {idle, in-flight incl. an exchange waiting for PUBCOMP, send quota exhausted, all in-flight slots full, one unit of send quota left}, plus will x 27 kinds x values, empty topic lists in every state, requests on a dead handle, and Maximum QoS {absent,0,1,2} x requested QoS x auto-downgrade flag; oracle = MQTT 5 legality table (MUST_ACCEPT / MUST_REJECT / UNSPECIFIED): rejected => documented error, no transport I/O, all observable session state unchanged; accepted => Ok and the property decodes from the wire. Every cell is a distinct case; non-trivial = cells whose outcome the specification fixes (not UNSPECIFIED).".into(),
             assumptions: vec![
                 "legality table written from MQTT 5 sections 2.2.2.2, 3.1.3.2, 3.3.2.3, 3.8.2.1, 3.10.2.1, 3.14.2.2".into(),
                 "Topic Alias > 0 (broker announced no Topic Alias Maximum), Server Reference on a client DISCONNECT and an empty / wildcard Response Topic are UNSPECIFIED: executed but not judged".into(),
